@@ -423,7 +423,7 @@ func (r *Ref) Flow(addr string, set map[[32]byte]bool) (in, out *big.Int) {
 			continue
 		}
 		t := rv.V.Transaction
-		if !t.IsSpiceTransfer() {
+		if !IsTransfer(t) {
 			continue
 		}
 		if t.IssuerAddress == addr {
@@ -475,3 +475,12 @@ func TrxToProto(t transaction.Transaction) (*protobufcompiled.Transaction, error
 	pt, _ := out[0].Interface().(*protobufcompiled.Transaction)
 	return pt, err
 }
+
+// IsTransfer is the harness's own reading of "the transaction moves spice" (the oracles must not borrow the
+// predicates of the code they judge).
+func IsTransfer(t transaction.Transaction) bool {
+	return t.Spice.Currency != 0 || t.Spice.SupplementaryCurrency != 0
+}
+
+// IsEmptyTx is the harness's own reading of "neither data nor spice".
+func IsEmptyTx(t transaction.Transaction) bool { return len(t.Data) == 0 && !IsTransfer(t) }
